@@ -358,6 +358,10 @@ class Connection(object):
             try:
                 tx_size = sock.send(data)
                 self._logger.debug('Sent %d octets', tx_size)
+            except (BlockingIOError, ssl.SSLWantWriteError, ssl.SSLWantReadError) as err:
+                # Not writable right now, keep the data and try again later
+                self._logger.debug('Socket not ready for "send": %s', err)
+                return True
             except socket.error as err:
                 self._logger.error('Failed to "send" on socket: %s', err)
                 tx_size = None
